@@ -269,7 +269,7 @@ Definition status_eqb (a b : status) : bool :=
 Definition cstate_eqb (a b : cstate) : bool :=
   match a, b with COpen, COpen | CReset, CReset | CClosed, CClosed => true | _, _ => false end.
 Definition reply_eqb (a b : reply) : bool :=
-  match a, b with RGood x, RGood y => Nat.eqb x y | RBad, RBad => true | _, _ => false end.
+  match a, b with RGood x, RGood y | RBad x, RBad y => Nat.eqb x y | _, _ => false end.
 Definition stream_obs_eqb (a b : stream_obs) : bool :=
   Nat.eqb (so_peer a) (so_peer b) && cstate_eqb (so_cli a) (so_cli b) && Bool.eqb (so_dead a) (so_dead b)
   && list_eqb Nat.eqb (so_pending a) (so_pending b) && list_eqb reply_eqb (so_inbox a) (so_inbox b)
@@ -329,7 +329,7 @@ Definition stream_clean (o : obs) (y : stream_obs) : bool :=
   | COpen =>
       Nat.leb (length (so_pending y) + length (so_inbox y)) 1
       && forallb (blocked_in o) (so_pending y)
-      && forallb (fun r => match r with RGood id => blocked_in o id && so_reader y | RBad => so_reader y end) (so_inbox y)
+      && forallb (fun r => blocked_in o (reply_id r) && so_reader y) (so_inbox y)
   | _ => true
   end.
 
